@@ -71,7 +71,7 @@ var floatPool = []string{"0", "1.5", "-2.25", "1e3", "1E-3", ".5", "5.", "inf", 
 var badFloatPool = []string{"", ".", "e3", "1e", "abc", "1.2.3", " 1.0", "0x", "1_", "--1.5", "infin"}
 var kvPool = []string{"k=v", "a=b", "k=", "=v", "=", "k=a=b", "key=value with space", "K=V", "k=v\nw", "é=日", "a=-b", "a==", "x=1", "y=2"}
 var rangePool = []string{"1..3", "-2..2", "3..1", "1..1", "1..", "..3", "1...3", "a..b", "0..10", "9223372036854775805..9223372036854775807", "1..2..3"}
-var weirdPool = []string{"", "-", "--", "---", "-=", "--=", "--=x", "-=x", "=", "a=b", "--a=b=c", "-\n", "a\nb", "\xff", "\xe2\x82", "\xed\xa0\x80",
+var weirdPool = []string{"\u2014verbose", "\u2013 note", "\u2014", "", "-", "--", "---", "-=", "--=", "--=x", "-=x", "=", "a=b", "--a=b=c", "-\n", "a\nb", "\xff", "\xe2\x82", "\xed\xa0\x80",
 	"--\xff", "-\xffz", " ", "-- ", " --", "-é", "--é=日", "-日本", "\x00", "-\x00", "--a\x00b"}
 
 func init() {
@@ -129,6 +129,9 @@ func (g *Gen) genOpt(used map[string]bool) OptDef {
 	if o.Kind >= KStrRep {
 		o.Min = 1 + g.r.Intn(3)
 		o.Max = o.Min + g.r.Intn(3)
+		if g.pct(6) {
+			o.Max = HugeMax // declared with math.MaxInt: "as many as given"
+		}
 	}
 	if g.pct(g.PRequired) {
 		o.Required = true
@@ -276,6 +279,7 @@ func (g *Gen) GenProg() *ProgDef {
 	p := &ProgDef{Mode: g.pickInt(g.Modes), Env: map[string]string{}}
 	p.MapLower = g.pct(10)
 	p.HelpEarly = g.pct(12)
+	p.EarlyParse = g.pct(10)
 	if g.pct(15) {
 		p.ModeFirst = 1 + g.r.Intn(3)
 	}
@@ -521,7 +525,11 @@ func (g *Gen) GenArgv(p *ProgDef) []string {
 			want := 0
 			switch {
 			case o.Kind >= KStrRep:
-				want = g.r.Intn(o.Max + 2)
+				mx := o.Max
+				if mx > 8 {
+					mx = 8 // "no upper limit": a handful of followers, not thousands
+				}
+				want = g.r.Intn(mx + 2)
 			case o.Kind >= KStr && o.Kind <= KFloat:
 				if !attach || g.pct(10) {
 					want = 1
